@@ -21,6 +21,7 @@ LEVEL_TEXT = ('Decides, for all paths / all cursor implementations: each primiti
               'only for name-like tokens, restore the position, and fold case on both sides; patterns take no case flag; '
               'configuration layers are applied in the documented order. The metamorphic relation on concrete texts is not '
               'decided.')
+LEVEL_TEXT += " Added clauses (rounds 9-11): whitespace is skipped only by the functions of the placement table; token matching is positionally exact also behind characters whose case mappings change the text's length."
 TECHNIQUE += '; next_token guard contract over cursor states'
 TECHNIQUE += '; token matchers also interpreted on texts holding characters whose case mappings change the length of the text (C09.R2b)'
 TECHNIQUE += '; who may skip: every next_token call of the engine lies in a function of the placement table or a private helper of one (R1)'
